@@ -560,7 +560,16 @@ def r01_3(ctx):
                     strict_ok = True
                     cmp_l = (s["lhs"][0], rv["op"], "index" in sides[0], b)
         if cmp_l is None:
-            ctx.ob("R01.3", f"Read::{m}", False, fn.loc(), "no comparison of index (+n) with the slice length guards the read")
+            # the checked accessor form: slice.get(index) / get(range), which returns None out of range by itself, with no
+            # unchecked read besides it
+            gets = [(b, t) for b, t in fn.calls() if callee_is(t, "get") and "slice" in t["callee"]]
+            raw = [(b, t) for b, t in fn.calls() if callee_is(t, "get_unchecked", "from_raw_parts", "index", "add", "offset")]
+            okg = bool(gets) and not raw
+            if okg:
+                a = op_local(gets[0][1]["args"][1])
+                sl, leaves = backward_slice(fn, [a]) if a is not None else (set(), [])
+                okg = any(lf[0] == "place" and "index" in [e[2] for e in lf[1][1] if isinstance(e, list) and e[0] == "."] for lf in leaves)
+            ctx.ob("R01.3", f"Read::{m}", okg, fn.loc(), "the read goes through the checked slice accessor get(index), which answers None out of range" if okg else "no comparison of index (+n) with the slice length guards the read")
             continue
         cl, op, index_left, cb = cmp_l
         from ..analysis import bool_switch_edges
